@@ -34,6 +34,11 @@ def run(R, ctx):
     # the specification and log's global max level change together: a record the active specification enables is not dropped by the
     # facade because a concurrent change left the gate of another specification behind (shared with C12 R12.1-R12.4)
     R.rule('R02.7', 'specification and gate are updated together under the specification write lock (shared with R12.1-R12.4)')
+    # the specification that decides is the one the user wrote: parse() stores module names verbatim (prefix matching against targets) and takes
+    # levels from the one recogniser (shared with R17.1 / R17.3)
+    R.rule('R02.8', 'parse stores names verbatim and levels through parse_level_filter (shared with R17.1/R17.3)')
+    import c17 as _c17
+    _c17.parse_shape(Relabel(R, {'R17.1': 'R02.8', 'R17.3': 'R02.8'}), ctx)
     import c12
     c12.run(Relabel(R, {'R12.1': 'R02.7', 'R12.2': 'R02.7', 'R12.3': 'R02.7', 'R12.4': 'R02.7', 'R12.5': 'R02.6'}), ctx)
 
